@@ -321,8 +321,9 @@ class Q:
         return outside * Q(u, f.R.one, norm=False)
 
 
-def _syntactic_sign(q):
-    """+1/-1 if the sign of q follows from generator sign facts alone, else 0"""
+def _syntactic_sign(q, weak=False):
+    """+1/-1 if the sign of q follows from generator sign facts alone, else 0.
+    weak=True: non-strict facts count too (result means q >= 0 resp. q <= 0)"""
     f = _CUR[0]
     sg = 1
     for p in (q.n, q.d):
@@ -338,9 +339,9 @@ def _syntactic_sign(q):
         for i, e in enumerate(m):
             if e % 2:
                 fact = f.sign.get(f.names[i])
-                if fact == '>':
+                if fact == '>' or (weak and fact == '>='):
                     pass
-                elif fact == '<':
+                elif fact == '<' or (weak and fact == '<='):
                     sg = -sg
                 else:
                     return 0
@@ -353,7 +354,7 @@ def _syntactic_sign(q):
 def _abs_decided(q):
     if q.isconst():
         return q if q.const() >= 0 else -q
-    sg = _syntactic_sign(q)
+    sg = _syntactic_sign(q, weak=True)
     if sg:
         return q if sg > 0 else -q
     orc = SIGN_ORACLE[0]
